@@ -127,6 +127,19 @@ def rule_manager(ctx):
         ctx.ob("C23.2", "operation events are returned to the consumer only behind state.dedup.insert == true", ok,
                "next_event returns an OperationReceived event without passing the manager's dedup window", site=b.loc(bb, k),
                key="C23.2:consumer-dedup")
+    # forwarding is unconditional: once the source session's topic is known, every path to the end of the arm
+    # (return to the consumer or back to the select loop) passes the forwarding loop — in particular the manager's
+    # own dedup window only decides what the *consumer* sees, never whether the other sessions get the operation
+    from mir import branches_on as _bo
+    some_targets = [br.edge("some")[1] for br in _bo(b, topic[0].result, topic[0].done_bb) if br.edge("some")]
+    ends = set(poll_bbs) | {bb for bb, _k in rets} | set(b.exits())
+    ok = bool(some_targets) and all(b.must_pass({sess[0].bb}, frm=t, to=ends, avoid_edges=inf) for t in some_targets)
+    ctx.ob("C23.2", "every received operation reaches the forwarding loop (not gated by the manager's dedup window)", ok,
+           "after session_topic_map.topic(session_id) returned Some there is a path to the end of the select arm that "
+           "bypasses session_topic_map.sessions(topic) / the forwarding loop (e.g. a `continue` on a duplicate): an "
+           "operation the manager has seen before is not forwarded to sessions that joined later",
+           site=sess[0].loc(), key="C23.2:forwarding-unconditional")
+    # and inside the loop the only way around the send for an iterated id is `id == session_id` or a missing sender
     ctx.note("observation (not alarmed): on a missing sender the handler drops `session_id` (the source) while the "
              "send-failure handler drops the failing `id`; the first branch is unreachable through the public API")
 
@@ -136,7 +149,9 @@ def run(ctx):
         "Decides: (1) TopicLogSync::run live loop: sink.send(Live) and OperationReceived are edge-guarded by "
         "dedup.insert(hash) == true and the buffer is the one returned by the sync phase; (2) "
         "ManagerEventStream::next_event: forwards ToSync::Payload to sessions(topic(source)) except the source, on "
-        "the iterated session's sender, and returns operation events only behind state.dedup.insert == true. NOT "
+        "the iterated session's sender, every path from a known topic to the end of the arm passes the forwarding loop "
+        "(forwarding is not gated by the manager's dedup window), and operation events are returned only behind "
+        "state.dedup.insert == true. NOT "
         "decided: delivery over multi-peer histories / window size effects (C24 covers the buffer itself).")
     for r in (rule_live_loop, rule_manager):
         ctx.guarded(lambda r=r: r(ctx), "C23")
